@@ -138,5 +138,162 @@ impl SessionBuilder {
 //@@ end
 }
 
+// ---------------------------------------------------------------------------------------------------------------
+// the listener side (acceptor/session.rs): SessionAcceptor::accept_incoming_session, launch_listener_session_engine, SessionEngine::begin_listener_session
+//@@ trusted (listener) IncomingSession comes from ListenerConnection::on_incoming_begin (unit CONN): when it carries a pre-allocated receiving end and channel, that end is the one whose sending half the connection registered under that channel; ListenerSession / TxnSession<ListenerSession> are reduced to the fields the wiring gives them; Session::on_incoming_begin (unit SESSION) is a stand-in that records what it was given; HashMap::new(), TransactionManager::new, definitions::Error::new are opaque constructors
+opaque!(Attach, Begin, PendingFlows, ConnectionControl, ConnErrKind, SessErr);
+#[derive(Clone, Copy)]
+pub struct IncomingChannel(pub u16);
+pub struct IncomingSession { pub channel: u16, pub begin: Begin, pub incoming_rx: Option<Rx<SessionIncomingItem>>, pub outgoing_channel: Option<OutgoingChannel> }
+pub struct HashMap {}
+impl HashMap { #[verifier::external_body] pub fn new() -> (r: PendingFlows) { unimplemented!() } }
+pub mod definitions { use super::*; pub struct Error {} impl Error { #[verifier::external_body] pub fn new(c: ConnErrKindTag, d: String, i: Option<u8>) -> (r: AmqpError) { unimplemented!() } } }
+pub struct ConnectionError {}
+impl ConnectionError { pub const FramingError: ConnErrKindTag = ConnErrKindTag {}; }
+pub struct ConnErrKindTag {}
+pub enum SessionStateError { IllegalState, ConnectionStopped(ConnStopReason), RemoteEnded, RemoteEndedWithError(AmqpError) }
+pub uninterp spec fn state_to_begin(e: SessionStateError) -> BeginError;
+impl ErrInto<BeginError> for SessionStateError { open spec fn conv(self) -> BeginError { state_to_begin(self) } #[verifier::external_body] fn err_into(self) -> (r: BeginError) { unimplemented!() } }
+impl SessionS {
+    pub uninterp spec fn begun_with(&self) -> Option<(IncomingChannel, Begin)>;
+    /// Session::on_incoming_begin (unit SESSION)
+    #[verifier::external_body]
+    pub fn on_incoming_begin(&mut self, channel: IncomingChannel, begin: Begin) -> (r: Result<(), SessionStateError>)
+        ensures final(self).outgoing_channel == old(self).outgoing_channel, final(self).session_stop_reason == old(self).session_stop_reason, final(self).connection_stop_reason == old(self).connection_stop_reason,
+            final(self).txn_control == old(self).txn_control, final(self).txn_outgoing == old(self).txn_outgoing, final(self).begun_with() == Some((channel, begin)),
+    { unimplemented!() }
+}
+impl Clone for SessionBuilder { #[verifier::external_body] fn clone(&self) -> (r: Self) ensures r == *self { unimplemented!() } }
+impl Clone for ControlLinkAcceptor { #[verifier::external_body] fn clone(&self) -> (r: Self) { unimplemented!() } }
+pub struct TransactionManager { pub outgoing: Tx<LinkFrame> }
+impl TransactionManager { pub fn new(outgoing: Tx<LinkFrame>, a: ControlLinkAcceptor) -> (r: Self) ensures r.outgoing == outgoing { TransactionManager { outgoing } } }
+pub struct ListenerSession { pub session: SessionS, pub link_listener: Tx<Attach>, pub pending_link_flows: PendingFlows }
+pub struct TxnSession { pub control: Tx<SessionControl>, pub session: ListenerSession, pub txn_manager: TransactionManager }
+/// what a listener-side engine is built around
+pub trait SessLike: Sized {
+    spec fn core(self) -> SessionS;
+    spec fn listener_tx(self) -> Tx<Attach>;
+    spec fn txn(self) -> Option<(Tx<SessionControl>, Tx<LinkFrame>)>;
+    /// S::send_begin (units SESSION / ACCDELEG / TXNDELEG): only the session's state changes
+    fn send_begin(&mut self, writer: &ConnOutTx) -> (r: Result<(), SessionStateError>)
+        ensures final(self).core().outgoing_channel == old(self).core().outgoing_channel, final(self).core().session_stop_reason == old(self).core().session_stop_reason,
+            final(self).core().connection_stop_reason == old(self).core().connection_stop_reason, final(self).core().begun_with() == old(self).core().begun_with(),
+            final(self).listener_tx() == old(self).listener_tx(), final(self).txn() == old(self).txn();
+}
+impl SessLike for ListenerSession {
+    open spec fn core(self) -> SessionS { self.session }
+    open spec fn listener_tx(self) -> Tx<Attach> { self.link_listener }
+    open spec fn txn(self) -> Option<(Tx<SessionControl>, Tx<LinkFrame>)> { None }
+    #[verifier::external_body] fn send_begin(&mut self, writer: &ConnOutTx) -> (r: Result<(), SessionStateError>) { unimplemented!() }
+}
+impl SessLike for TxnSession {
+    open spec fn core(self) -> SessionS { self.session.session }
+    open spec fn listener_tx(self) -> Tx<Attach> { self.session.link_listener }
+    open spec fn txn(self) -> Option<(Tx<SessionControl>, Tx<LinkFrame>)> { Some((self.control, self.txn_manager.outgoing)) }
+    #[verifier::external_body] fn send_begin(&mut self, writer: &ConnOutTx) -> (r: Result<(), SessionStateError>) { unimplemented!() }
+}
+#[verifier::reject_recursive_types(S)]
+pub struct LEngine<S> { pub conn_control: ConnCtlTx, pub session: S, pub control: Rx<SessionControl>, pub incoming: Rx<SessionIncomingItem>, pub outgoing: ConnOutTx, pub outgoing_link_frames: Rx<LinkFrame> }
+/// the engine a listener session handle belongs to, flattened
+pub struct LEngineView { pub core: SessionS, pub listener_tx: Tx<Attach>, pub txn: Option<(Tx<SessionControl>, Tx<LinkFrame>)>, pub conn_control: ConnCtlTx, pub control: Rx<SessionControl>, pub incoming: Rx<SessionIncomingItem>, pub outgoing: ConnOutTx, pub outgoing_link_frames: Rx<LinkFrame> }
+impl<S: SessLike> LEngine<S> {
+    pub open spec fn view(self) -> LEngineView { LEngineView { core: self.session.core(), listener_tx: self.session.listener_tx(), txn: self.session.txn(), conn_control: self.conn_control, control: self.control, incoming: self.incoming, outgoing: self.outgoing, outgoing_link_frames: self.outgoing_link_frames } }
+    #[verifier::external_body]
+    pub fn spawn(self) -> (r: (LJoinHandle, LOutcomeRx)) ensures r.0.engine_of() == self.view(), r.1.engine_of() == self.view() { unimplemented!() }
+}
+shared!(LJoinHandle, LOutcomeRx);
+impl LJoinHandle { pub uninterp spec fn engine_of(&self) -> LEngineView; }
+impl LOutcomeRx { pub uninterp spec fn engine_of(&self) -> LEngineView; }
+pub struct ListenerSessionHandle { pub is_ended: bool, pub control: Tx<SessionControl>, pub engine_handle: LJoinHandle, pub outcome: LOutcomeRx, pub outgoing: Tx<LinkFrame>, pub session_stop_reason: StopArc, pub link_listener: Rx<Attach> }
+pub struct ListenerConnectionHandle { pub control: ConnCtlTx, pub outgoing: ConnOutTx, pub connection_stop_reason: ConnStopArc }
+impl ListenerConnectionHandle {
+    #[verifier::external_body]
+    pub fn allocate_session(&mut self, tx: Tx<SessionIncomingItem>) -> (r: Result<OutgoingChannel, AllocSessionError>)
+        ensures r is Ok ==> registered_session(r->Ok_0).id() == tx.id(), *final(self) == *old(self),
+    { unimplemented!() }
+}
+impl ConnCtlTx { #[verifier::external_body] pub fn send(&self, c: ConnectionControl) -> (r: Result<(), u8>) { unimplemented!() } }
+#[verifier::external_body]
+pub fn close_control(e: Option<AmqpError>) -> (r: ConnectionControl) { unimplemented!() }
+#[verifier::external_body]
+pub fn connection_stop_reason_or_closed(c: &ConnStopArc) -> (r: ConnStopReason) { unimplemented!() }
+
+impl<S: SessLike> LEngine<S> {
+//@@ fn file=fe2o3-amqp/src/acceptor/session.rs impl=`~impl<S>SessionEngine<S>where` name=begin_listener_session
+//@@ qmark
+//@@ param conn_control : ConnCtlTx
+//@@ param control : Rx<SessionControl>
+//@@ param incoming : Rx<SessionIncomingItem>
+//@@ param outgoing : ConnOutTx
+//@@ param outgoing_link_frames : Rx<LinkFrame>
+//@@ ret Result<LEngine<S>, BeginError>
+//@@ subst `Self {` => `LEngine {` rule=R7
+//@@ spec
+    ensures
+        r is Ok ==> r->Ok_0.conn_control == conn_control && r->Ok_0.control == control && r->Ok_0.incoming == incoming && r->Ok_0.outgoing == outgoing && r->Ok_0.outgoing_link_frames == outgoing_link_frames
+            && r->Ok_0.session.core().outgoing_channel == session.core().outgoing_channel && r->Ok_0.session.core().session_stop_reason == session.core().session_stop_reason
+            && r->Ok_0.session.core().connection_stop_reason == session.core().connection_stop_reason && r->Ok_0.session.core().begun_with() == session.core().begun_with()
+            && r->Ok_0.session.listener_tx() == session.listener_tx() && r->Ok_0.session.txn() == session.txn(),      // [C13.listener-wiring.engine-keeps-its-ends] the listener-side engine that comes up reads and writes exactly the ends it was given, around the session it was given
+//@@ end
+}
+
+pub struct SessionAcceptor(pub SessionBuilder);
+pub open spec fn wired_l(h: ListenerSessionHandle, c: ListenerConnectionHandle, inc: IncomingSession) -> bool {
+    let e = h.outcome.engine_of();
+    &&& h.engine_handle.engine_of() == e
+    &&& (inc.incoming_rx is Some && inc.outgoing_channel is Some ==> e.incoming == inc.incoming_rx->Some_0 && e.core.outgoing_channel == inc.outgoing_channel->Some_0)   // [C11.listener-wiring.pre-allocated-relay-feeds-this-engine] the queue in which the connection has been keeping the frames the peer pipelined behind its begin IS the queue the accepted session's engine reads
+    &&& (!(inc.incoming_rx is Some && inc.outgoing_channel is Some) ==> registered_session(e.core.outgoing_channel).id() == e.incoming.id())                                  // [C11.session-wiring.connection-feeds-this-engine]
+    &&& e.core.begun_with() == Some((IncomingChannel(inc.channel), inc.begin))                // [C11.listener-wiring.peers-channel-and-begin-taken-over] [C07.listener-wiring.peers-begin-taken-over]
+    &&& h.control.id() == e.control.id()                                                      // [C13.session-wiring.handle-controls-this-engine]
+    &&& h.outgoing.id() == e.outgoing_link_frames.id()                                        // [C01.session-wiring.links-write-to-this-engine]
+    &&& h.link_listener.id() == e.listener_tx.id()                                            // [C13.listener-wiring.attaches-reach-this-handles-link-acceptor]
+    &&& h.session_stop_reason.id() == e.core.session_stop_reason.id()                         // [C14.session-wiring.handle-reads-the-engines-stop-reason]
+    &&& e.core.connection_stop_reason.id() == c.connection_stop_reason.id()                   // [C14.session-wiring.session-reads-the-connections-stop-reason]
+    &&& e.conn_control.id() == c.control.id() && e.outgoing.id() == c.outgoing.id()           // [C12.session-wiring.engine-writes-to-its-connection]
+    &&& (e.txn is Some ==> e.txn->Some_0.0.id() == h.control.id() && e.txn->Some_0.1.id() == h.outgoing.id())   // [C18.session-wiring.txn-session-writes-to-its-own-engine]
+    &&& !h.is_ended
+}
+impl SessionAcceptor {
+//@@ fn file=fe2o3-amqp/src/acceptor/session.rs impl=`impl SessionAcceptor` name=launch_listener_session_engine id=launch_txn
+//@@ qmark
+//@@ generics
+//@@ nowhere
+//@@ param connection : &ListenerConnectionHandle
+//@@ param control_link_outgoing : &Tx<LinkFrame>
+//@@ param session_control_tx : &Tx<SessionControl>
+//@@ param session_control_rx : Rx<SessionControl>
+//@@ param incoming : Rx<SessionIncomingItem>
+//@@ param outgoing_link_frames : Rx<LinkFrame>
+//@@ ret Result<(LJoinHandle, LOutcomeRx), BeginError>
+//@@ subst `SessionEngine::begin_listener_session(` => `LEngine::begin_listener_session(` rule=R7
+//@@ spec
+    ensures
+        r is Ok ==> ({
+            let e = r->Ok_0.1.engine_of();
+            &&& r->Ok_0.0.engine_of() == e
+            &&& e.core.outgoing_channel == listener_session.session.outgoing_channel && e.core.session_stop_reason == listener_session.session.session_stop_reason
+                && e.core.connection_stop_reason == listener_session.session.connection_stop_reason && e.core.begun_with() == listener_session.session.begun_with()
+            &&& e.listener_tx == listener_session.link_listener
+            &&& e.conn_control.id() == connection.control.id() && e.outgoing.id() == connection.outgoing.id()
+            &&& e.control == session_control_rx && e.incoming == incoming && e.outgoing_link_frames == outgoing_link_frames
+            &&& (e.txn is Some ==> e.txn->Some_0.0.id() == session_control_tx.id() && e.txn->Some_0.1.id() == control_link_outgoing.id())     // [C18.session-wiring.txn-session-writes-to-its-own-engine] (listener)
+            &&& (self.0.control_link_acceptor is Some ==> e.txn is Some)                                                                     // [C18.listener-wiring.control-links-accepted-when-configured]
+        }),
+//@@ end
+
+//@@ fn file=fe2o3-amqp/src/acceptor/session.rs impl=`impl SessionAcceptor` name=accept_incoming_session
+//@@ qmark
+//@@ ret Result<ListenerSessionHandle, BeginError>
+//@@ subst `ConnectionControl::Close(Some(error))` => `close_control(Some(error))` rule=R11
+//@@ subst `.map_err(|_v0| { __E1 })` => `.map_err(|_v0: u8| -> (o: BeginError) { __E1 })` rule=R18 unless `map_err`
+//@@ subst `"Exceeding channel-max".to_string()` => `String::new()` rule=optional-R11
+//@@ subst `SessionHandle {` => `ListenerSessionHandle {` rule=R7
+//@@ spec
+    ensures
+        r is Ok ==> wired_l(r->Ok_0, *old(connection), incoming_session),     // [C11.listener-wiring.pre-allocated-relay-feeds-this-engine] [C11.session-wiring.connection-feeds-this-engine] [C11.listener-wiring.peers-channel-and-begin-taken-over] [C07.listener-wiring.peers-begin-taken-over] [C13.session-wiring.handle-controls-this-engine] [C01.session-wiring.links-write-to-this-engine] [C13.listener-wiring.attaches-reach-this-handles-link-acceptor] [C14.session-wiring.handle-reads-the-engines-stop-reason] [C14.session-wiring.session-reads-the-connections-stop-reason] [C12.session-wiring.engine-writes-to-its-connection] [C18.session-wiring.txn-session-writes-to-its-own-engine]
+        *final(connection) == *old(connection),
+//@@ end
+}
+
 } // verus!
 fn main() {}
